@@ -12,7 +12,7 @@ import (
 func init() {
 	register("C10", &ruleSet{
 		run:    runC10,
-		floors: map[string]int{"O1": 3, "O2": 3, "O3": 6, "O4": 2, "O5": 3},
+		floors: map[string]int{"O1": 4, "O2": 3, "O3": 6, "O4": 2, "O5": 3},
 		explain: "Decides the wake-up / hand-off protocol discipline, which is exactly where lost wake-ups live: (O1) condition-variable waiters: the failing delegate.Acquire " +
 			"that leads to waiting and the registration on the condition are in one critical section of the condition's lock; (O2) signallers: every Broadcast/Signal is issued " +
 			"with that lock held after the state change; O1 and O2 together are the textbook sufficient discipline, and if either fails there is a schedule that parks the waiter " +
@@ -219,6 +219,39 @@ func runC10(p *Prog, l *Ledger) {
 			// the primitive may wait in its own goroutine: then Wait must be reached without an unlock (already checked)
 		}
 		l.Check(len(bad) == 0, "O1", key, p.FuncPos(prim), "entered with the condition's lock held; the lock is released only by Wait itself, after registration", "the waiter can miss a Broadcast between the hand-over of the lock and its registration", bad...)
+		// the lock the primitive is entered with is handed to somebody on every way out: the goroutine that Waits (and
+		// unlocks when woken), or the primitive's own Wait. A return that does neither leaves the condition's lock held for
+		// good: every later Acquire and every completion then parks in Lock(), outside any select.
+		{
+			var hbad []string
+			nret := 0
+			EnumPaths(prim, 100000, func(pa *Path) bool {
+				if !pa.IsReturn() {
+					return true
+				}
+				nret++
+				handed := false
+				pa.Each(func(step int, ins ssa.Instruction) bool {
+					switch x := ins.(type) {
+					case *ssa.Go:
+						if g := p.funcOfValue(x.Call.Value); g != nil && c10Waits(p, g, 2) {
+							handed = true
+						}
+					case *ssa.Call:
+						if p.CallOf(x).Is("(*sync.Cond).Wait") {
+							handed = true
+						}
+					}
+					return true
+				})
+				if !handed {
+					hbad = append(hbad, "a path returns without handing the condition's lock to a waiter: "+joinWitness(p.DescribePath(pa)))
+				}
+				return len(hbad) < 3
+			})
+			l.Check(len(hbad) == 0 && nret > 0, "O1", p.Key(prim)+"/lock-handed-over", p.FuncPos(prim), fmt.Sprintf("%d returning paths; each hands the lock it was entered with to a waiter that releases it", nret),
+				"the condition's lock can stay held for ever: later callers and completions block outside any timeout or cancellation", hbad...)
+		}
 	}
 
 	// ---------------- O2 / O3 at wrapping listeners
@@ -525,6 +558,24 @@ func c10Wakes(p *Prog, fn *ssa.Function, depth int) bool {
 				if c10Wakes(p, c.Static, depth-1) {
 					found = true
 				}
+			}
+		}
+	})
+	return found
+}
+
+// c10Waits: fn (or a module function it calls statically, to the given depth) calls Wait on a condition.
+func c10Waits(p *Prog, fn *ssa.Function, depth int) bool {
+	found := false
+	allInstrs(fn, func(ins ssa.Instruction) {
+		if found {
+			return
+		}
+		if c := p.CallOf(ins); c != nil {
+			if c.Is("(*sync.Cond).Wait") {
+				found = true
+			} else if depth > 0 && c.Static != nil && c.Static != fn && p.InModule(c.Static) && c.Static.Blocks != nil && c10Waits(p, c.Static, depth-1) {
+				found = true
 			}
 		}
 	})
